@@ -435,9 +435,8 @@ def execute(schedule, ctx):
             got = [b[0] for b in it['evals']]
             chk('iteration/evaluates-selected-in-order', got == selected, {'iteration': kk, 'evaluated': got, 'selected': selected})
             chk('iteration/keyword', it['eb'][4] == kk and all(b[4] == kk for b in it['evals']), {'iteration': kk, 'got': it['eb'][4]})
-        for sid in ids:
-            for r in probes.get_ctl(subs[sid]).log:
-                chk('submodel-hooks-not-called', r['hook'] == 'eval', {'submodel': sid, 'hook': r['hook']}) if r['hook'] != 'eval' else None
+        if any(r['hook'] != 'eval' for sid in ids for r in probes.get_ctl(subs[sid]).log):
+            ctx.probe('linker-called-a-submodel-hook')  # (not prescribed either way by the property)
         unselected_untouched(selected)
         K = len(iters)
 
@@ -484,8 +483,6 @@ def execute(schedule, ctx):
                 moved = max([abs(x - y) for key in views[K] for x, y in zip(views[K][key], views[K - 1][key])] + [0.0])
             chk('declared-solved-while-moving>=tol', ok, {'largest-move': moved, 'tol': tol, 'iterations': K})
             chk('solved/returns-True', out['kind'] == 'return' and bool(out['value']) is True, {'got': cls_out})
-            afters = [r for r in lrecs if r['hook'] == 'after']
-            chk('solved/post-hook-once', len(afters) == 1, {'calls': len(afters)})
             if K == max(1, opts['min_iter']):
                 ctx.probe('solved-at-first-permitted-iteration')
         elif st == 'F':
@@ -494,12 +491,11 @@ def execute(schedule, ctx):
                 chk('failed/NonConvergenceError', cls_out == 'NonConvergenceError', {'got': cls_out})
             else:
                 chk('failed/returns-False', out['kind'] == 'return' and bool(out['value']) is False, {'got': cls_out})
-            chk('failed/no-post-hook', not [r for r in lrecs if r['hook'] == 'after'], None)
         else:
             chk('status/solved-or-failed', False, {'status': st, 'outcome': cls_out, 'max_iter': opts['max_iter']})
         chk('iterations-recorded' + ('/max_iter=0' if opts['max_iter'] == 0 else ''), it_rec == K, {'recorded': it_rec, 'performed': K, 'outcome': cls_out})
-        befores = [r for r in lrecs if r['hook'] == 'before']
-        chk('pre-hook-once', len(befores) == 1 and (not bus or bus[0][1] == 'before'), {'calls': len(befores)})
+        # (the linker's own solve_t_before / solve_t_after hooks are not mentioned by the property: recorded, not asserted)
+        ctx.probe('linker-solution-hooks:' + str(len([r for r in lrecs if r['hook'] in ('before', 'after')])))
         for sid in selected:
             chk('stamp/same-status-on-selected', str(post[sid]['status'][tn]) == st, {'submodel': sid, 'got': str(post[sid]['status'][tn]), 'linker': st})
             chk('stamp/selected-iterations-equal-linker', int(post[sid]['iterations'][tn]) == it_rec, {'submodel': sid, 'got': int(post[sid]['iterations'][tn]), 'linker': it_rec})
